@@ -1,6 +1,6 @@
 /-
   PINS of property C06: the decision tokens of every item the property is anchored in
-  (properties.jsonl `anchors` + tools/anchor_extra.json), as they were in /repo at 32de816 when the
+  (properties.jsonl `anchors` + tools/anchor_extra.json), as they were in /repo at 770977e when the
   model was validated against the source.  Written by tools/pin_anchors.py; the right-hand sides are
   compared by the kernel with lean/Chrono/Extracted/Anchors.lean, which tools/extractors/anchors.py
   regenerates from /repo's working tree on every check.  A theorem that fails here means: anchored
@@ -25,6 +25,14 @@ theorem src_time_delta_rs_const_MIN : C06_src_time_delta_rs_const_MIN =
 /-- src/time_delta.rs:fn abs -/
 theorem src_time_delta_rs_fn_abs : C06_src_time_delta_rs_fn_abs =
     ["&", "self", "->", "TimeDelta", "if", "self", "v1", "<", "0", "&&", "self", "v2", "!=", "0", "TimeDelta", "v1", "self", "v1", "+", "1", "abs(", "v2", "NANOS_PER_SEC", "-", "self", "v2", "else", "TimeDelta", "v1", "self", "v1", "abs(", "v2", "self", "v2"] := by decide +kernel
+
+/-- src/time_delta.rs:fn as_seconds_f32 -/
+theorem src_time_delta_rs_fn_as_seconds_f32 : C06_src_time_delta_rs_fn_as_seconds_f32 =
+    ["self", "->", "f32", "self", "v1", "as", "f32", "+", "self", "v2", "as", "f32", "/", "NANOS_PER_SEC", "as", "f32"] := by decide +kernel
+
+/-- src/time_delta.rs:fn as_seconds_f64 -/
+theorem src_time_delta_rs_fn_as_seconds_f64 : C06_src_time_delta_rs_fn_as_seconds_f64 =
+    ["self", "->", "f64", "self", "v1", "as", "f64", "+", "self", "v2", "as", "f64", "/", "NANOS_PER_SEC", "as", "f64"] := by decide +kernel
 
 /-- src/time_delta.rs:fn checked_add -/
 theorem src_time_delta_rs_fn_checked_add : C06_src_time_delta_rs_fn_checked_add =
@@ -213,5 +221,13 @@ theorem src_time_delta_rs_impl_SubAssign_for_TimeDelta : C06_src_time_delta_rs_i
 /-- src/time_delta.rs:impl Sum -/
 theorem src_time_delta_rs_impl_Sum : C06_src_time_delta_rs_impl_Sum =
     ["<", ">", "v1", "v2", "Sum", "<", "&", "TimeDelta", ">", "for", "TimeDelta", "v3", "<", "I", "Iterator", "<", "Item", "&", "TimeDelta", ">>", "v2", "I", "->", "TimeDelta", "v2", "fold(", "TimeDelta", "zero(", "|", "v4", "v5", "|", "v4", "+", "*", "v5", "§", "v1", "v2", "Sum", "<", "TimeDelta", ">", "for", "TimeDelta", "v3", "<", "I", "Iterator", "<", "Item", "TimeDelta", ">>", "v2", "I", "->", "TimeDelta", "v2", "fold(", "TimeDelta", "zero(", "|", "v4", "v5", "|", "v4", "+", "v5"] := by decide +kernel
+
+/-- src/time_delta.rs:mod serde -/
+theorem src_time_delta_rs_mod_serde : C06_src_time_delta_rs_mod_serde =
+    ["TimeDelta", "v1", "Deserialize", "Deserializer", "Serialize", "Serializer", "v2", "Error", "Serialize", "for", "TimeDelta", "v3", "<", "S", "Serializer", ">", "&", "self", "v4", "S", "->", "Result", "<", "S", "Ok", "S", "Error", ">", "<", "i64", "i32", "as", "Serialize", ">", "serialize(", "&", "self", "v5", "self", "v6", "v4", "<", ">", "Deserialize", "<", ">", "for", "TimeDelta", "v7", "<", "D", "Deserializer", "<", ">>", "v8", "D", "->", "Result", "<", "Self", "D", "Error", ">", "let(", "v5", "v6", "<", "i64", "i32", "as", "Deserialize", ">", "deserialize(", "v8", "?", "TimeDelta", "new(", "v5", "v6", "as", "u32", "ok_or(", "Error", "custom(", "\"…\""] := by decide +kernel
+
+/-- src/time_delta.rs:type TimeDelta -/
+theorem src_time_delta_rs_type_TimeDelta : C06_src_time_delta_rs_type_TimeDelta =
+    ["v1", "i64", "v2", "i32", "§", "TimeDelta", "new(", "v1", "i64", "v2", "u32", "->", "Option", "<", "TimeDelta", ">", "if", "v1", "<", "MIN", "v1", "||", "v1", ">", "MAX", "v1", "||", "v2", ">=", "1000000000", "||", "v1", "==", "MAX", "v1", "&&", "v2", ">", "MAX", "v2", "as", "u32", "||", "v1", "==", "MIN", "v1", "&&", "v2", "<", "MIN", "v2", "as", "u32", "return", "None", "Some(", "TimeDelta", "v1", "v2", "v2", "as", "i32", "weeks(", "v3", "i64", "->", "TimeDelta", "expect(", "TimeDelta", "try_weeks(", "v3", "\"…\"", "try_weeks(", "v3", "i64", "->", "Option", "<", "TimeDelta", ">", "TimeDelta", "try_seconds(", "try_opt!(", "v3", "checked_mul(", "SECS_PER_WEEK", "days(", "v4", "i64", "->", "TimeDelta", "expect(", "TimeDelta", "try_days(", "v4", "\"…\"", "try_days(", "v4", "i64", "->", "Option", "<", "TimeDelta", ">", "TimeDelta", "try_seconds(", "try_opt!(", "v4", "checked_mul(", "SECS_PER_DAY", "hours(", "v5", "i64", "->", "TimeDelta", "expect(", "TimeDelta", "try_hours(", "v5", "\"…\"", "try_hours(", "v5", "i64", "->", "Option", "<", "TimeDelta", ">", "TimeDelta", "try_seconds(", "try_opt!(", "v5", "checked_mul(", "SECS_PER_HOUR", "minutes(", "v6", "i64", "->", "TimeDelta", "expect(", "TimeDelta", "try_minutes(", "v6", "\"…\"", "try_minutes(", "v6", "i64", "->", "Option", "<", "TimeDelta", ">", "TimeDelta", "try_seconds(", "try_opt!(", "v6", "checked_mul(", "SECS_PER_MINUTE", "seconds(", "v7", "i64", "->", "TimeDelta", "expect(", "TimeDelta", "try_seconds(", "v7", "\"…\"", "try_seconds(", "v7", "i64", "->", "Option", "<", "TimeDelta", ">", "TimeDelta", "new(", "v7", "0", "milliseconds(", "v8", "i64", "->", "TimeDelta", "expect(", "TimeDelta", "try_milliseconds(", "v8", "\"…\"", "try_milliseconds(", "v8", "i64", "->", "Option", "<", "TimeDelta", ">", "if", "v8", "<", "-", "i64", "MAX", "return", "None", "let(", "v1", "v9", "div_mod_floor_64(", "v8", "MILLIS_PER_SEC", "v10", "TimeDelta", "v1", "v2", "v9", "as", "i32", "*", "NANOS_PER_MILLI", "Some(", "v10", "microseconds(", "v11", "i64", "->", "TimeDelta", "let(", "v1", "v12", "div_mod_floor_64(", "v11", "MICROS_PER_SEC", "v2", "v12", "as", "i32", "*", "NANOS_PER_MICRO", "TimeDelta", "v1", "v2", "nanoseconds(", "v2", "i64", "->", "TimeDelta", "let(", "v1", "v2", "div_mod_floor_64(", "v2", "NANOS_PER_SEC", "as", "i64", "TimeDelta", "v1", "v2", "v2", "as", "i32", "num_weeks(", "&", "self", "->", "i64", "self", "num_days(", "/", "7", "num_days(", "&", "self", "->", "i64", "self", "num_seconds(", "/", "SECS_PER_DAY", "num_hours(", "&", "self", "->", "i64", "self", "num_seconds(", "/", "SECS_PER_HOUR", "num_minutes(", "&", "self", "->", "i64", "self", "num_seconds(", "/", "SECS_PER_MINUTE", "num_seconds(", "&", "self", "->", "i64", "if", "self", "v1", "<", "0", "&&", "self", "v2", ">", "0", "self", "v1", "+", "1", "else", "self", "v1", "as_seconds_f64(", "self", "->", "f64", "self", "v1", "as", "f64", "+", "self", "v2", "as", "f64", "/", "NANOS_PER_SEC", "as", "f64", "as_seconds_f32(", "self", "->", "f32", "self", "v1", "as", "f32", "+", "self", "v2", "as", "f32", "/", "NANOS_PER_SEC", "as", "f32", "num_milliseconds(", "&", "self", "->", "i64", "v13", "self", "num_seconds(", "*", "MILLIS_PER_SEC", "v14", "self", "subsec_nanos(", "/", "NANOS_PER_MILLI", "v13", "+", "v14", "as", "i64", "subsec_millis(", "&", "self", "->", "i32", "self", "subsec_nanos(", "/", "NANOS_PER_MILLI", "num_microseconds(", "&", "self", "->", "Option", "<", "i64", ">", "v13", "try_opt!(", "self", "num_seconds(", "checked_mul(", "MICROS_PER_SEC", "v14", "self", "subsec_nanos(", "/", "NANOS_PER_MICRO", "v13", "checked_add(", "v14", "as", "i64", "subsec_micros(", "&", "self", "->", "i32", "self", "subsec_nanos(", "/", "NANOS_PER_MICRO", "num_nanoseconds(", "&", "self", "->", "Option", "<", "i64", ">", "v13", "try_opt!(", "self", "num_seconds(", "checked_mul(", "NANOS_PER_SEC", "as", "i64", "v14", "self", "subsec_nanos(", "v13", "checked_add(", "v14", "as", "i64", "subsec_nanos(", "&", "self", "->", "i32", "if", "self", "v1", "<", "0", "&&", "self", "v2", ">", "0", "self", "v2", "-", "NANOS_PER_SEC", "else", "self", "v2", "checked_add(", "&", "self", "v15", "&", "TimeDelta", "->", "Option", "<", "TimeDelta", ">", "v1", "self", "v1", "+", "v15", "v1", "v2", "self", "v2", "+", "v15", "v2", "if", "v2", ">=", "NANOS_PER_SEC", "v2", "-=", "NANOS_PER_SEC", "v1", "+=", "1", "TimeDelta", "new(", "v1", "v2", "as", "u32", "checked_sub(", "&", "self", "v15", "&", "TimeDelta", "->", "Option", "<", "TimeDelta", ">", "v1", "self", "v1", "-", "v15", "v1", "v2", "self", "v2", "-", "v15", "v2", "if", "v2", "<", "0", "v2", "+=", "NANOS_PER_SEC", "v1", "-=", "1", "TimeDelta", "new(", "v1", "v2", "as", "u32", "checked_mul(", "&", "self", "v15", "i32", "->", "Option", "<", "TimeDelta", ">", "v16", "self", "v2", "as", "i64", "*", "v15", "as", "i64", "let(", "v17", "v2", "div_mod_floor_64(", "v16", "NANOS_PER_SEC", "as", "i64", "v1", "i128", "self", "v1", "as", "i128", "*", "v15", "as", "i128", "+", "v17", "as", "i128", "if", "v1", "<=", "i64", "MIN", "as", "i128", "||", "v1", ">=", "i64", "MAX", "as", "i128", "return", "None", "TimeDelta", "new(", "v1", "as", "i64", "v2", "as", "u32", "checked_div(", "&", "self", "v15", "i32", "->", "Option", "<", "TimeDelta", ">", "if", "v15", "==", "0", "return", "None", "v1", "self", "v1", "/", "v15", "as", "i64", "v18", "self", "v1", "%", "v15", "as", "i64", "v19", "v18", "*", "NANOS_PER_SEC", "as", "i64", "/", "v15", "as", "i64", "v2", "self", "v2", "/", "v15", "+", "v19", "as", "i32", "let(", "v1", "v2", "match", "v2", "i32", "MIN", "..=", "-", "1", "=>", "v1", "-", "1", "v2", "+", "NANOS_PER_SEC", "NANOS_PER_SEC", "..=", "i32", "MAX", "=>", "v1", "+", "1", "v2", "-", "NANOS_PER_SEC", "v20", "=>", "v1", "v2", "Some(", "TimeDelta", "v1", "v2", "abs(", "&", "self", "->", "TimeDelta", "if", "self", "v1", "<", "0", "&&", "self", "v2", "!=", "0", "TimeDelta", "v1", "self", "v1", "+", "1", "abs(", "v2", "NANOS_PER_SEC", "-", "self", "v2", "else", "TimeDelta", "v1", "self", "v1", "abs(", "v2", "self", "v2", "min_value(", "->", "TimeDelta", "MIN", "max_value(", "->", "TimeDelta", "MAX", "zero(", "->", "TimeDelta", "TimeDelta", "v1", "0", "v2", "0", "is_zero(", "&", "self", "->", "bool", "self", "v1", "==", "0", "&&", "self", "v2", "==", "0", "from_std(", "v21", "Duration", "->", "Result", "<", "TimeDelta", "OutOfRangeError", ">", "if", "v21", "as_secs(", ">", "MAX", "v1", "as", "u64", "return", "Err(", "OutOfRangeError(", "match", "TimeDelta", "new(", "v21", "as_secs(", "as", "i64", "v21", "subsec_nanos(", "Some(", "v10", "=>", "Ok(", "v10", "None", "=>", "Err(", "OutOfRangeError(", "to_std(", "&", "self", "->", "Result", "<", "Duration", "OutOfRangeError", ">", "if", "self", "v1", "<", "0", "return", "Err(", "OutOfRangeError(", "Ok(", "Duration", "new(", "self", "v1", "as", "u64", "self", "v2", "as", "u32", "pub(", "neg(", "self", "->", "TimeDelta", "let(", "v22", "v2", "match", "self", "v2", "0", "=>", "0", "0", "v2", "=>", "1", "NANOS_PER_SEC", "-", "v2", "TimeDelta", "v1", "-", "self", "v1", "-", "v22", "v2", "MIN", "Self", "MIN", "MAX", "Self", "MAX", "§", "Neg", "for", "TimeDelta", "Output", "TimeDelta", "neg(", "self", "->", "TimeDelta", "let(", "v1", "v2", "match", "self", "v2", "0", "=>", "0", "0", "v2", "=>", "1", "NANOS_PER_SEC", "-", "v2", "TimeDelta", "v3", "-", "self", "v3", "-", "v1", "v2", "§", "Add", "for", "TimeDelta", "Output", "TimeDelta", "add(", "self", "v1", "TimeDelta", "->", "TimeDelta", "self", "checked_add(", "&", "v1", "expect(", "\"…\"", "§", "Sub", "for", "TimeDelta", "Output", "TimeDelta", "sub(", "self", "v1", "TimeDelta", "->", "TimeDelta", "self", "checked_sub(", "&", "v1", "expect(", "\"…\"", "§", "AddAssign", "for", "TimeDelta", "add_assign(", "&", "self", "v1", "TimeDelta", "v2", "self", "checked_add(", "&", "v1", "expect(", "\"…\"", "*", "self", "v2", "§", "SubAssign", "for", "TimeDelta", "sub_assign(", "&", "self", "v1", "TimeDelta", "v2", "self", "checked_sub(", "&", "v1", "expect(", "\"…\"", "*", "self", "v2", "§", "Mul", "<", "i32", ">", "for", "TimeDelta", "Output", "TimeDelta", "mul(", "self", "v1", "i32", "->", "TimeDelta", "self", "checked_mul(", "v1", "expect(", "\"…\"", "§", "Div", "<", "i32", ">", "for", "TimeDelta", "Output", "TimeDelta", "div(", "self", "v1", "i32", "->", "TimeDelta", "self", "checked_div(", "v1", "expect(", "\"…\"", "§", "<", ">", "v1", "v2", "Sum", "<", "&", "TimeDelta", ">", "for", "TimeDelta", "v3", "<", "I", "Iterator", "<", "Item", "&", "TimeDelta", ">>", "v2", "I", "->", "TimeDelta", "v2", "fold(", "TimeDelta", "zero(", "|", "v4", "v5", "|", "v4", "+", "*", "v5", "§", "v1", "v2", "Sum", "<", "TimeDelta", ">", "for", "TimeDelta", "v3", "<", "I", "Iterator", "<", "Item", "TimeDelta", ">>", "v2", "I", "->", "TimeDelta", "v2", "fold(", "TimeDelta", "zero(", "|", "v4", "v5", "|", "v4", "+", "v5", "§", "v1", "Display", "for", "TimeDelta", "fmt(", "&", "self", "v2", "&", "v1", "Formatter", "->", "v1", "Result", "let(", "v3", "v4", "if", "self", "v5", "<", "0", "-", "*", "self", "\"-\"", "else", "*", "self", "\"\"", "write!(", "v2", "\"{}P\"", "v4", "?", "if", "v3", "v5", "==", "0", "&&", "v3", "v6", "==", "0", "return", "v2", "write_str(", "\"0D\"", "v2", "write_fmt(", "format_args!(", "\"T{}\"", "v3", "v5", "?", "if", "v3", "v6", ">", "0", "v7", "9", "v8", "v3", "v6", "loop", "v9", "v8", "/", "10", "v10", "v8", "%", "10", "if", "v10", "!=", "0", "break", "v8", "v9", "v7", "-=", "1", "v2", "write_fmt(", "format_args!(", "\".{:01$}\"", "v8", "v7", "?", "v2", "write_str(", "\"S\"", "?", "Ok(", "§", "v1", "Arbitrary", "<", ">", "for", "TimeDelta", "arbitrary(", "v2", "&", "v1", "Unstructured", "->", "v1", "Result", "<", "TimeDelta", ">", "MIN_SECS", "i64", "-", "i64", "MAX", "/", "MILLIS_PER_SEC", "-", "1", "MAX_SECS", "i64", "i64", "MAX", "/", "MILLIS_PER_SEC", "v3", "i64", "v2", "int_in_range(", "MIN_SECS", "..=", "MAX_SECS", "?", "v4", "i32", "v2", "int_in_range(", "0", "..=", "NANOS_PER_SEC", "-", "1", "?", "v5", "TimeDelta", "v3", "v4", "if", "v5", "<", "MIN", "||", "v5", ">", "MAX", "Err(", "v1", "Error", "IncorrectFormat", "else", "Ok(", "v5", "§", "Serialize", "for", "TimeDelta", "v1", "<", "S", "Serializer", ">", "&", "self", "v2", "S", "->", "Result", "<", "S", "Ok", "S", "Error", ">", "<", "i64", "i32", "as", "Serialize", ">", "serialize(", "&", "self", "v3", "self", "v4", "v2", "§", "<", ">", "Deserialize", "<", ">", "for", "TimeDelta", "v1", "<", "D", "Deserializer", "<", ">>", "v2", "D", "->", "Result", "<", "Self", "D", "Error", ">", "let(", "v3", "v4", "<", "i64", "i32", "as", "Deserialize", ">", "deserialize(", "v2", "?", "TimeDelta", "new(", "v3", "v4", "as", "u32", "ok_or(", "Error", "custom(", "\"…\""] := by decide +kernel
 
 end Chrono.Pins.C06
